@@ -1449,4 +1449,49 @@ Qed.
 Theorem trace_from_fresh_InvC tr : pre_trace n prim_pre tr (init_state n) -> InvC (run n tr (init_state n)).
 Proof. apply run_preserves_InvC, init_state_InvC. Qed.
 
+(* ======================================================================== *)
+(* Part G : the set-level figures ARE the from-scratch figures of Model/Net.v  *)
+Lemma perm_inrange a b : Permutation a b -> inrange n b -> inrange n a.
+Proof.
+  intros HP [ND Hb]. split; [apply (Permutation_NoDup (Permutation_sym HP)), ND|].
+  intros k Hk. apply Hb, (Permutation_in _ HP), Hk.
+Qed.
+Lemma sub_legs_slegs_ok sl nd t : good_node nd -> Permutation (leaves t) nd -> slegs_ok n sl nd (sub_legs n sl t).
+Proof.
+  intros [HR _] HP. destruct (sub_legs_spec n sl t (perm_inrange _ _ HP HR)) as [W G].
+  split; [exact W|]. intros j. rewrite G. apply spec_count_perm, HP.
+Qed.
+Theorem cached_legs_are_net s nd i lg t : InvC s -> nget nd (info s) = Some i -> i_legs i = Some lg ->
+  length nd <> N -> Permutation (leaves t) nd ->
+  wfl lg /\ forall j, lget0 j lg = lget0 j (sub_legs n (sliced s) t).
+Proof.
+  intros [(_&_&H3&_) _] Hi Hl HN' HP. destruct (H3 nd i Hi) as [G (A&_)].
+  apply A in Hl. apply legs_ok_nonroot in Hl; [|exact HN']. destruct Hl as [W Gl]. split; [exact W|].
+  intros j. rewrite Gl. destruct (sub_legs_slegs_ok (sliced s) nd t G HP) as [_ G']. rewrite G'. reflexivity.
+Qed.
+Theorem cached_size_is_net s nd i z t : InvC s -> nget nd (info s) = Some i -> i_size i = Some z ->
+  length nd <> N -> Permutation (leaves t) nd -> z = node_size n (sliced s) false t.
+Proof.
+  intros [(_&_&H3&_) _] Hi Hz HN' HP. destruct (H3 nd i Hi) as [G (_&_&C&_)].
+  unfold node_size. apply (C z Hz). apply legs_ok_nonroot; [exact HN'|].
+  destruct t; apply sub_legs_slegs_ok; assumption.
+Qed.
+Theorem cached_root_size_is_net s nd i z t : InvC s -> nget nd (info s) = Some i -> i_size i = Some z ->
+  length nd = N -> z = node_size n (sliced s) true (Node t t).
+Proof.
+  intros [(_&_&H3&_) _] Hi Hz EN. destruct (H3 nd i Hi) as [G (_&_&C&_)].
+  unfold node_size. cbn [node_legs]. apply (C z Hz), legs_ok_root, EN.
+Qed.
+Theorem cached_flops_is_net s nd i z l r a b : InvC s -> nget nd (info s) = Some i -> i_flops i = Some z ->
+  nget nd (children s) = Some (l, r) -> Permutation (leaves a) l -> Permutation (leaves b) r ->
+  z = node_flops n (sliced s) (Node a b).
+Proof.
+  intros [(Hc&_&H3&_) _] Hi Hz Hch HPa HPb. destruct (H3 nd i Hi) as [G (_&_&_&D)].
+  destruct (D z Hz) as [[E1 _]|(l' & r' & E & Hok)].
+  - exfalso. apply (leaf_not_parent _ nd l r Hc Hch E1).
+  - rewrite Hch in E. injection E as <- <-. cbn [node_flops involved]. apply Hok.
+    destruct Hc as [_ Hc]. destruct (Hc nd l r Hch) as (Gl & Gr & _).
+    apply union2_inv_ok; apply sub_legs_slegs_ok; assumption.
+Qed.
+
 End Inv.
